@@ -90,7 +90,10 @@ func runC05(c *Ctx) {
 		c.undecided("raise-resets", "chip-mover", "-", "cannot resolve the chip mover")
 	} else {
 		c.touch(fnKey(mover))
-		s := newSumm(p, 0)
+		s := newSumm(p, 2)
+		s.InlineFilter = func(f *ssa.Function) bool {
+			return f.Name() != "BecomeRaiser" && f.Name() != "ResetActedPlayers" && f.Pkg != nil && shortPkg(f.Pkg.Pkg.Path()) == "pokerface" && f.Signature.Recv() != nil && strings.HasSuffix(recvName(f.Signature.Recv().Type()), ea.playerImpl)
+		}
 		paths, _ := s.Function(mover)
 		nSt := 0
 		var bad []string
@@ -394,20 +397,27 @@ func runC05Counters(c *Ctx, ea *engineAnchors) {
 		if ri.Kind != "slice" || !ri.Full || !loadsField(ri.Coll, "pokerface.GameState.Players") {
 			bad = append(bad, "the loop is not a full range over GameState.Players")
 		}
-		// counter phi: starts at len(Players) (through GetPlayerCount), returned after the loop
+		// counter phi: starts at the number of players (count down) or at 0 (count up); returned after the loop
 		var counter *ssa.Phi
+		countDown := false
 		for _, in := range l.Header.Instrs {
 			if phi, ok := in.(*ssa.Phi); ok && isIntType(phi.Type()) {
 				for i, e := range phi.Edges {
 					if !l.Blocks[l.Header.Preds[i]] {
 						if call, isCall := e.(*ssa.Call); isCall {
 							if f := call.Common().StaticCallee(); f != nil && f.Name() == "GetPlayerCount" {
-								counter = phi
+								counter, countDown = phi, true
+							}
+							if b, isB := call.Common().Value.(*ssa.Builtin); isB && b.Name() == "len" && loadsField(call.Common().Args[0], "pokerface.GameState.Players") {
+								counter, countDown = phi, true
 							}
 						}
-						if call, isCall := e.(*ssa.Call); isCall {
-							if b, isB := call.Common().Value.(*ssa.Builtin); isB && b.Name() == "len" {
-								counter = phi
+						if c0, isC := constInt(e); isC && c0 == 0 {
+							// candidate count-up counter: must be the returned value
+							for _, b := range fn.Blocks {
+								if r, ok := b.Instrs[len(b.Instrs)-1].(*ssa.Return); ok && len(r.Results) == 1 && r.Results[0] == ssa.Value(phi) {
+									counter, countDown = phi, false
+								}
 							}
 						}
 					}
@@ -415,7 +425,7 @@ func runC05Counters(c *Ctx, ea *engineAnchors) {
 			}
 		}
 		if counter == nil {
-			c.bad("counters", fnKey(fn), p.FnPos(fn), "no counter initialised with the number of players")
+			c.bad("counters", fnKey(fn), p.FnPos(fn), "no counter initialised with the number of players (or with 0) and returned")
 			continue
 		}
 		// returned value is the counter
@@ -475,8 +485,14 @@ func runC05Counters(c *Ctx, ea *engineAnchors) {
 			if tStack != "" {
 				stack = a.I[tStack]
 			}
-			wantDec := sp.ref(fold, stack)
-			if (d.C == -1) != wantDec || (d.C != 0 && d.C != -1) {
+			excluded := sp.ref(fold, stack)
+			okStep := false
+			if countDown {
+				okStep = (excluded && d.C == -1) || (!excluded && d.C == 0)
+			} else {
+				okStep = (excluded && d.C == 0) || (!excluded && d.C == 1)
+			}
+			if !okStep {
 				bad = append(bad, fmt.Sprintf("for fold=%v stack=%d the counter changes by %d", fold, stack, d.C))
 				return false
 			}
